@@ -289,6 +289,9 @@ def build_rank(desc: dict[str, Any], rank: int) -> Any:
             node[it["id"]] = make_distributed_recv(
                 src_rank=it["src"], comm_tag=dec_tag(it["tag"]), shape=tuple(it["shape"]),
                 dtype=np.float64)
+            if it.get("variant"):
+                from vf.vtags import VTag
+                node[it["id"]] = node[it["id"]].tagged(VTag(it["id"]))
     for it in order:
         k = it["kind"]
         if k in ("in", "dropped_recv"):
@@ -452,6 +455,9 @@ def faults(desc: dict[str, Any]) -> list[tuple[str, dict[str, Any]]]:
             names = d["outputs"][str(it["rank"])]
             names[f"dup{nid}"] = nid
         else:
+            # a second, DISTINGUISHABLE receive for the same (source, tag): structurally equal
+            # receive nodes are one node (value semantics), i.e. one receive
+            x["variant"] = True
             names = d["outputs"][str(it["rank"])]
             names[f"dup{nid}"] = nid
         out.append((f"duplicate-{k}", d))
